@@ -34,7 +34,9 @@ def events(kind=None):
 def unconverged_explicit():
     """True if some solve since the last reset used an explicitly requested solver that did not report convergence."""
     # for a solver the caller asked for, "optimal_inaccurate" also means that it gave up before reaching its tolerances
-    return any(e.get("requested") is not None and e.get("status") != "optimal" for e in events("solve"))
+    # "infeasible"/"unbounded" are definite answers of the solver, not a failure to converge
+    gave_up = ("user_limit", "optimal_inaccurate", "solver_error", "infeasible_inaccurate", "unbounded_inaccurate", "unknown", None)
+    return any(e.get("requested") is not None and e.get("status") in gave_up for e in events("solve"))
 
 
 def raw():
